@@ -289,6 +289,16 @@ def check_matching(case, v: Verdict):
                      + Tn * K * (DEFAULT_TOL[1] + DEFAULT_TOL[0] * Tp) / Tp)
             if abs(err) <= b_def:
                 sub, c = "tol-honoured", f"{solver}/{branch}/shock"
+        if sub == "shock-Tn" and solver == "general":
+            # classification only: is the returned point a root of the solver's OWN shooting function?
+            try:
+                own = float(hyd.solveHydroShock(vw, vp, Tp)) - Tn
+                v.info["own_shock_residual_rel"] = own / Tn
+                if abs(own) > 20.0 * (atol + rtol * Tn):
+                    c += "/spurious-root"
+                    v.label("spurious-root")
+            except (WallGoError, ValueError):
+                pass
         v.fail(sub, c,
                f"flow from the returned (v+, T+) reaches rest at Tn' = Tn (1 {err / Tn:+.3e}); allowed "
                f"{bound / Tn:.2e} ({ratio:.3g} x) at vw={vw:.8g}, v+={vp:.8g}, T+={Tp:.8g}, front {sh.kind} at "
@@ -425,7 +435,10 @@ def check_kappa(case, v: Verdict):
     branch = Z.branch_of(vw, vp, vm)
     bucket = Z.speed_bucket(vw)
     v.label("outcome:value", f"branch:{branch}", f"speed:{bucket}")
-    cls = f"{solver}/{fam}/{branch}/{bucket}"
+    near_vj = -0.05 <= vw - vJ <= 0.005
+    if near_vj:
+        v.label("near-vJ")
+    cls = f"{solver}/{fam}/{branch}/{bucket}" + ("/near-vJ" if near_vj else "")
     try:
         kref, ksw, krw = R.kappa(eos, Tn, vw, vp, vm, Tp, Tm)
         vp6, vm6, Tp6, Tm6 = out[1e-6][1]
